@@ -122,9 +122,11 @@ impl Ctx {
 
     pub fn violation_for(&self, prop: &str, kind: &str, witness: &str, detail: Value) -> bool {
         for k in &self.known {
-            if k.status == "known" && k.property == prop && k.kind == kind && k.witness == witness
+            // a finding is identified by its exact witness, or - witness "*" - by a kind that names the one
+            // call site / mechanism it comes from (the kind is then computed from the failing state, not the input)
+            if k.status == "known" && k.property == prop && k.kind == kind && (k.witness == witness || k.witness == "*")
             {
-                let key = format!("{prop}|{kind}|{witness}");
+                let key = format!("{prop}|{kind}|{}", k.witness);
                 if self.known_hit.lock().unwrap().insert(key) {
                     println!("KNOWN-FINDING: property={prop} kind={kind} witness={witness:?}");
                 }
